@@ -45,9 +45,12 @@ TRIVIA = {
     "ws_choice": (("WHITESPACE", "_", ("alt", (S(" "), S("\t")))),),
     "cm1": (("COMMENT", "_", S("#")),),
     "both_loud": (("WHITESPACE", "", S(" ")), ("COMMENT", "", S("#"))),
+    # alternatives that are prefixes of one another, over letters the start rules use too (the optimizer fuses
+    # a silent choice-bodied WHITESPACE into one regex: ordered choice must survive that)
+    "ws_overlap": (("WHITESPACE", "_", ("alt", (S("b"), S("ba")))),),
 }
 TRIVIA_SIGMA = {
-    "none": "", "ws": " ", "ws_loud": " ", "cm2": "#!", "both": " #!", "ws_choice": " \t", "cm1": "#", "both_loud": " #",
+    "none": "", "ws": " ", "ws_loud": " ", "cm2": "#!", "both": " #!", "ws_choice": " \t", "cm1": "#", "both_loud": " #", "ws_overlap": "",
 }
 
 
@@ -118,7 +121,7 @@ def batch_specs(starts, base_rules, ins, kmode, family, batch=40):
 
 C01_BOUNDS = {
     # top: list of (n, modifiers, trivia configs); ctx: (hole size, trivia configs); L: max number of inputs
-    "quick": {"top": [(2, MODS, ("none", "ws", "cm2", "both")), (3, ("", "@"), ("none", "ws"))],
+    "quick": {"top": [(2, MODS, ("none", "ws", "ws_loud", "cm2", "both")), (3, ("", "@"), ("none", "ws"))],
               "ctx": (2, ("none", "ws")), "max_inputs": 90},
     "thorough": {"top": [(3, MODS, ("none", "ws", "ws_loud", "cm2", "both", "ws_choice", "cm1")), (4, ("",), ("none", "ws"))],
                  "ctx": (3, ("none", "ws", "cm2", "both")), "max_inputs": 400},
